@@ -5,7 +5,12 @@ set -u
 PROP=$1; PATCH=$2; TIER=${3:-quick}
 S=${SEED_SCRATCH:-/tmp/seedchk}
 mkdir -p $S
-rsync -a --delete --exclude target --exclude .git /repo/ $S/repo/
+if [ -n "${SEED_REPO_REV:-}" ]; then
+  # a patch made against an earlier commit of /repo (before a later fix: commit moved the code it touches)
+  rm -rf $S/repo.new && mkdir -p $S/repo.new && git -C /repo archive $SEED_REPO_REV | tar -x -C $S/repo.new && rsync -a --delete --exclude target $S/repo.new/ $S/repo/ && rm -rf $S/repo.new
+else
+  rsync -a --delete --exclude target --exclude .git /repo/ $S/repo/
+fi
 ( cd $S/repo && patch -p1 -s < "$PATCH" ) || { echo "PATCH DID NOT APPLY"; exit 3; }
 # the COMMITTED harness (the working tree may be mid-edit while the queue daemons run)
 rm -rf $S/harness.new && mkdir -p $S/harness.new && git -C /verif archive HEAD harness | tar -x -C $S/harness.new && rsync -a --delete --exclude 'target*' $S/harness.new/harness/ $S/harness/ && rm -rf $S/harness.new
